@@ -16,6 +16,9 @@ func (f HandlerFunc) ServeHTTP(w http.ResponseWriter, r *http.Request) {
 	c := &Context{}
 	c.Init(w, r)
 	f(c)
+	// there is no router that does it: commit a status that was only recorded (SetStatus,
+	// AbortWithStatus, NoContent ...) when the handler has written nothing.
+	c.writer.ensureWriteHeader()
 }
 
 // HandlersChain middleware handlers chain definition
